@@ -103,7 +103,14 @@ def run(ctx):
             ctx.error(s.where, "template %s: %s" % (key, e))
             continue
         ntempl += 1
-        if len(k.roots) != 1 or k.roots[0].kind != "elem":
+        uninterpreted = [mk for mk in k.markers if mk.hole is not None and mk.hole.why in ("format", "format-splat", "percent", "percent-map", "join")
+                         and mk.elem is None]
+        if (len(k.roots) != 1 or k.roots[0].kind != "elem") and uninterpreted:
+            # a piece of the template outside any element is a sub-template the evaluator did not open: the shape of the whole
+            # is not known
+            ctx.error(s.where, "template %s: a top-level piece is not interpreted (%s)" % (key, uninterpreted[0].hole.why))
+            continue
+        elif len(k.roots) != 1 or k.roots[0].kind != "elem":
             ctx.violation("R3.1", key, "template does not have a single root element", file=s.fc.fn.file, line=s.call.lineno)
             continue
         root = k.roots[0]
